@@ -7,7 +7,7 @@ Decomposition (DESIGN.md §5 C12):
   edge.*      RENDER_EDGE_STEP_*, _pixman_edge_multi_init, pixman_edge_step, pixman_edge_init
   trap.*      pixman_rasterize_trapezoid / pixman_add_traps: rows and walkers handed to pixman_rasterize_edges (stubbed)
 Jobs whose name starts with `finding.` hold obligations that FAIL on the pinned tree (own job each, see report)."""
-from vdriver import Job
+from vdriver import Job, ext_jobs, ext_meta
 
 UB = ["--signed-overflow-check", "--div-by-zero-check"]
 SAFE = ["--signed-overflow-check", "--div-by-zero-check", "--bounds-check", "--pointer-check"]
@@ -33,6 +33,12 @@ def row_job(n, acc, wmax, unwind, timeout, case=0, name=None, kind="bounded", ex
                domain="l->x, r->x any int32; width 1..%d; t any grid row of either image row; all buffer words symbolic; ghost slot anywhere in the buffer incl. guard/spare words" % wmax,
                timeout=timeout, min_props=20,
                assumptions=[A_LAYOUT] + ([A_A1_RIGHT] if n == 1 and case != 1 else []))
+
+
+# extension modules merged into this property's job list (vdriver.ext_jobs / ext_meta)
+EXT = [
+    ("C12_msc", None),
+]
 
 
 def jobs(tier):
@@ -164,7 +170,7 @@ def jobs(tier):
         js.append(Job("triangle.clockwise.b%d" % b, "C12/triangle.c", defines={"VC_CASE": 0, "VC_LIMBITS": b}, kind="bounded",
                       bound="coordinates within +-2^%d (16.16 units); the query at +-2^30 does not finish" % b, functions=["clockwise"],
                       domain="three points: clockwise() == sign of the exact 64-bit cross product", timeout=1800, min_props=1))
-    return js
+    return js + ext_jobs(tier, EXT)
 
 
 META = {
@@ -181,3 +187,4 @@ META = {
                     "pixman_composite_trapezoids / triangles, get_trap_extents, triangle_to_trapezoids, zero_src_has_no_effect (left to the lead)",
                     "big-endian alpha layouts"],
 }
+META = ext_meta(META, EXT)
